@@ -105,6 +105,7 @@ const (
 	VisLoadOther              // read another key
 	VisAll                    // call a mix of methods of the same container
 	VisAdvance                // a slow visitor: the clock moves while the traversal is under way
+	VisClear                  // the first visit clears the container
 )
 
 // Op is one generated operation.
@@ -212,7 +213,8 @@ func (r *Rec) String() string {
 
 // World is the execution context shared by the tasks of one run.
 type World struct {
-	rearms    int // re-arming callback invocations (CBKind 5)
+	rearms    int  // re-arming callback invocations (CBKind 5)
+	swapCB    bool // re-entrant callbacks and visitors may also call SetEvictedCallback (C13 only: no ledger is kept)
 	sim       *simrt.Sim
 	m         MapAPI
 	c         CacheAPI
@@ -429,6 +431,14 @@ func (w *World) visitor(r *Rec, isMap bool) func(k int, v int64) bool {
 			if len(r.Visits) <= 8 {
 				w.reenterAll(isMap, k, v)
 			}
+		case VisClear:
+			if len(r.Visits) == 1 {
+				if isMap {
+					w.ExecMap(Op{K: MClear}, true)
+				} else {
+					w.ExecCache(Op{K: CClear}, true)
+				}
+			}
 		case VisAdvance:
 			if !isMap && w.sim != nil && w.sim.BackgroundTasks() == 0 {
 				w.sim.Advance(1+r.Op.D%7, false, 0) // only without a janitor: nothing else may run meanwhile
@@ -460,6 +470,11 @@ func (w *World) reenterAll(isMap bool, k int, v int64) {
 		case 5:
 			w.ExecMap(Op{K: MRange, Stop: 2}, true)
 		}
+		return
+	}
+	if w.swapCB && n%11 == 10 {
+		// a callback (or visitor) that swaps the evicted callback of its own cache
+		w.ExecCache(Op{K: CSetCallback, N: 2}, true)
 		return
 	}
 	switch n % 8 {
@@ -618,6 +633,9 @@ func (w *World) ExecCache(op Op, nested bool) *Rec {
 		c.SetDefaultExpiration(op.D)
 	case CDefaultExpiration:
 		r.TTL = c.DefaultExpiration()
+		if op.N == 1 {
+			c.HasCallback() // the EvictedCallback() getter
+		}
 	case CSetCallback:
 		if op.N == 0 {
 			c.SetEvictedCallback(nil)
